@@ -110,6 +110,22 @@ theorem inv_erase {s : St} (h : Inv s) (x : Nat) (hn : x ∉ ids s) :
   obtain ⟨h1, h2, h3, h4, h5, h6, h7, h8, h9⟩ := h
   constructor <;> simp_all [ids, chan] <;> grind [List.Nodup.erase, List.Nodup.mem_erase_iff, List.mem_of_mem_erase]
 
+theorem inv_dropPending {s : St} (h : Inv s) : Inv { s with pending := none } := by
+  obtain ⟨h1, h2, h3, h4, h5, h6, h7, h8, h9⟩ := h
+  have hsub : (ids { s with pending := none }).Sublist (ids s) := by
+    simp only [ids, chan, Option.toList_none, List.append_nil]
+    exact (List.sublist_append_left _ _).filterMap _
+  constructor
+  · exact h1.sublist hsub
+  · intro x hx; exact h2 x (hsub.subset hx)
+  · exact h3
+  · exact h4
+  · exact h5
+  · exact h6
+  · exact h7
+  · exact h8
+  · intro hh; simp at hh
+
 theorem pending_none_of_not_isSome {s : St} (hp : ¬ s.pending.isSome = true) : s.pending = none := by
   cases hs : s.pending <;> simp_all
 
@@ -199,6 +215,7 @@ theorem inv_step (fixed : Bool) {s : St} (h : Inv s) (op : Op) : Inv (step fixed
       exact inv_reload (inv_erase hi x (hx x rfl).2) true
   case restart => exact inv_reload h true
   case restartFail => exact inv_reload h false
+  case pause => exact inv_dropPending h
 
 theorem size_push (s : St) (e : Option Nat) : (push s e).1.size = s.size := by
   unfold push; split <;> rfl
@@ -265,6 +282,12 @@ theorem nonil_step {s : St} (h : NoNil s) (op : Op) :
     · exact ⟨nonil_reload _ _, by simp, rfl⟩
   case restart => exact ⟨nonil_reload _ _, by simp [step], rfl⟩
   case restartFail => exact ⟨nonil_reload _ _, by simp [step], rfl⟩
+  case pause =>
+    refine ⟨?_, by simp [step], rfl⟩
+    intro e he
+    apply h e
+    simp only [step, chan, Option.toList_none, List.append_nil] at he
+    simp [chan, he]
   all_goals
     simp only [step]
     split
